@@ -35,7 +35,10 @@ RULE = ("random plate sets: 1-12 plates of unequal sizes 1..40 (single plate, si
         "distance matrix (budget covering both C(n,3) or only the smaller), then must reproduce the direct estimator and a fresh scorer's result; a third of the cases passes read-only, non-contiguous input arrays; every input is compared with a pristine copy "
         "afterwards and the kernel is called twice on the same dense arrays; plus, in every run, n_thetas 34, 36, 40 (C(n,3) = 5984..9880 > the default budget 5000) on tiny plates: every entry point "
         "(kernel, homoscedastic, heteroscedastic, scorer with max_chunk 50 and 1/2) with budgets C, C+1, 20000 (direct estimator, seed independence, all triples gathered) "
-        "and sub-sampling budgets 50, 777, 6000 (number of triples gathered = min(C, budget)); plus the scorer driven through real "
+        "and sub-sampling budgets 50, 777, 6000 (number of triples gathered = min(C, budget)); plus the hardening classes 10-13 (every argument a temporary of the shape of the previous round; one scorer object with another generator; "
+        "plates scored in instalments vs one call; plate widths and plate counts 127/128/129/255/256/257; budgets 4999/5001 around the default); oracles "
+        "fire only on valid inputs for stated clauses -- invalid shapes, < 3 samples, the empty dict, dict key order, in-place modification as such, "
+        "the internal pad helper and the number of sub-sampled triples are ties/counters; plus the scorer driven through real "
         "Screen/Plate/ThetaHolder/ChunkedDistanceMatrix objects. Non-trivial: >= 2 plates of different sizes and some triple with positive distance.")
 
 RTOL = 1e-9
@@ -325,7 +328,8 @@ def eval_case(case, want_tie=True):
 
     def check_untouched(where):
         if not (same(D, D0) and all(same(a, b) for a, b in zip(means, means0)) and all(same(a, b) for a, b in zip(variances, variances0))):
-            bad("an entry point modifies its input arrays in place", {"after": where}, "inputs bit-identical after the call", "mutates-input")
+            # not stated by the property as such (its consequence -- another score on the next call -- is, and is an oracle below)
+            bad("an entry point modifies its input arrays in place", {"after": where}, "inputs bit-identical after the call", "tie:mutates-input")
             return False
         return True
     all_triples = [(a, b, cc) for a in range(n) for b in range(a) for cc in range(b)]
@@ -362,10 +366,10 @@ def eval_case(case, want_tie=True):
         bad("heteroscedastic entry point raises on valid input", het, "scores", "raises")
         return fails, tie, info
     het = [float(x) for x in het]
-    if len(ts_het) != 1 or sorted(ts_het[0]) != sorted(all_triples):
-        bad("the drawn triples are not every 3-subset exactly once", {"n_calls": len(ts_het), "n_triples": [len(t) for t in ts_het]},
-            "C(n,3) distinct descending triples", "triples")
-        return fails, tie, info
+    drawn_ok = len(ts_het) == 1 and sorted(ts_het[0]) == sorted(all_triples)
+    if not drawn_ok:
+        # how the kernel obtains its triples is C15's subject; here only the consequence (the score) is an oracle
+        info["draw_unrecognised"] = True
     if not all_close(het, ref):
         bad("heteroscedastic scores differ from the direct loop-by-loop estimator", het, ref, "reference")
     # finiteness
@@ -375,9 +379,9 @@ def eval_case(case, want_tie=True):
             bad("score finite iff some triple has positive distance", {"plate": k, "score": het[k]},
                 {"some_positive_distance": pos}, "finite")
             break
-    if want_tie:
+    if want_tie and drawn_ok:
         tie.append(("het", "dbal.het %d %s %s %s %s" % (f2b(factor), enc_mat(Dl), enc_triples(ts_het[0]), enc_3d(means0), enc_3d(variances0)), het))
-    if want_tie and safe:
+    if want_tie and safe and drawn_ok:
         tie.append(("direct", "dbal.direct %d %s %s %s %s" % (f2b(factor), enc_mat(Dl), enc_triples(ts_het[0]), enc_3d(means0), enc_3d(variances0)), het))
     check_untouched("heteroscedastic")
 
@@ -399,13 +403,13 @@ def eval_case(case, want_tie=True):
             bad("vectorised scores on wider padding differ from the direct estimator", {"pad_width": W, "scores": vec}, ref, "padding")
         if not (same(pm, pm0) and same(pv, pv0)):
             bad("the vectorised entry point modifies its dense input arrays in place (NaN padding / means overwritten)",
-                {"pad_width": W}, "inputs bit-identical after the call", "mutates-input")
+                {"pad_width": W}, "inputs bit-identical after the call", "tie:mutates-input")
         # the same dense arrays scored a second time
         vec2, _ = call(gd.dbal_fast_gauss_scoring_vectorized, predictions=pm, variances=pv, distance_matrix=D,
                        max_combos=c["max_combos"], distance_factor=factor)
         if isinstance(vec2, str) or not all_close([float(x) for x in vec2], ref):
             bad("scoring the same dense arrays a second time gives other scores", {"pad_width": W, "second": vec2 if isinstance(vec2, str) else [float(x) for x in vec2]}, ref, "second-call")
-        if want_tie:
+        if want_tie and len(ts_vec) == 1:
             tie.append(("vec", "dbal.vec %d %s %s %s %s" % (f2b(factor), enc_mat(Dl), enc_triples(ts_vec[0]), enc_3d(pm0), enc_3d(pv0)), vec))
 
     # ---- entry point 3: homoscedastic ----------------------------------------------------------
@@ -421,7 +425,7 @@ def eval_case(case, want_tie=True):
             hom = [float(x) for x in hom]
             if not all_close(hom, ref):
                 bad("homoscedastic scores differ from the direct estimator", hom, ref, "entrypoints")
-            if want_tie:
+            if want_tie and len(ts_hom) == 1:
                 tie.append(("hom", "dbal.hom %d %s %s %s %s" % (f2b(factor), enc_mat(Dl), enc_triples(ts_hom[0]), enc_3d(means0), enc_mat(hv.tolist())), hom))
         check_untouched("homoscedastic")
 
@@ -478,9 +482,11 @@ def eval_case(case, want_tie=True):
                 {"max_chunk": mc, "error": out, "reused_scorer": reused, "previous_n_thetas": n_dec if reused else None}, "scores",
                 "scorer-reuse" if reused and n_dec != n else "raises")
             continue
-        if list(out.keys()) != list(use.keys()):
-            bad("scorer does not return exactly the given plate ids", {"max_chunk": mc, "keys": [int(k) for k in out.keys()]}, [int(k) for k in use.keys()], "scorer")
+        if sorted(int(k) for k in out.keys()) != sorted(int(k) for k in use.keys()):
+            bad("scorer does not return a score for exactly the given plate ids", {"max_chunk": mc, "keys": [int(k) for k in out.keys()]}, [int(k) for k in use.keys()], "scorer")
             continue
+        if list(out.keys()) != list(use.keys()):
+            info["key_order_differs"] = True        # the iteration order of the returned dict is not part of the property
         got = [float(out[i]) for i in ids]
         if not all_close(got, ref1):
             bad("scorer result for a plate differs from the direct estimator of that plate"
@@ -622,7 +628,7 @@ def bigtheta_case(subseed, n, want_tie=True):
                 break
             if ts is not None and any(len(set(t)) != C or len(t) != C for t in ts):
                 fails.append(("%s does not enumerate every triple although the budget covers them" % name,
-                              {"entry": name, "max_combos": budget, "triples_used_per_kernel_call": n_used}, {"triples": C}, "budget"))
+                              {"entry": name, "max_combos": budget, "triples_used_per_kernel_call": n_used}, {"triples": C}, "tie:budget-gathers"))
                 break
         # ---- independent of the seed when everything is enumerated -------------------------------------------------------
         try:
@@ -632,8 +638,10 @@ def bigtheta_case(subseed, n, want_tie=True):
                 fails.append(("%s score depends on the seed although the budget covers all triples" % name, {"entry": name, "seed1": a, "seed2": b}, "equal", "budget"))
         except Exception:  # noqa
             pass
-        # ---- sub-sampling budgets that are not the default: the number of triples really gathered -------------------------
-        for budget in (50, 777, 6000):
+        # ---- sub-sampling budgets just below / above / far from the default 5000: the number of triples really gathered.  The property
+        #      speaks about the exhaustive regime only, so this is compared as a TIE (min(C, budget) is what the call-site model of
+        #      C15 prints), never a concrete replay.
+        for budget in (50, 777, 4999, 5001, 6000):
             log = []
             try:
                 entry(name, budget, r.randrange(2 ** 32), RecArr(D, log))
@@ -648,7 +656,7 @@ def bigtheta_case(subseed, n, want_tie=True):
             for t in ts:
                 if len(t) != want or len(set(t)) != len(t) or any(not (n > i > j > l >= 0) for (i, j, l) in t):
                     fails.append(("%s uses another number of triples than min(C(n,3), budget), or repeated / out-of-range ones" % name,
-                                  {"entry": name, "max_combos": budget, "n_triples": len(t), "distinct": len(set(t))}, {"n_triples": want}, "budget"))
+                                  {"entry": name, "max_combos": budget, "n_triples": len(t), "distinct": len(set(t))}, {"n_triples": want}, "tie:budget-count"))
                     break
     if want_tie and not fails:
         rng = RecRng(r.randrange(2 ** 32))
@@ -657,6 +665,137 @@ def bigtheta_case(subseed, n, want_tie=True):
         if len(ts) == 1:
             tie.append(("het", "dbal.het %d %s %s %s %s" % (f2b(1.0), enc_mat(Dl), enc_triples(ts[0]), enc_3d(means), enc_3d(variances)), [float(x) for x in het]))
     return fails, tie, info
+
+
+def classes_case(subseed):
+    """hardening classes 10-13 (HARDENING_CHECKLIST.md), one small scenario each; returns (fails, counts)"""
+    from batchie.scoring import gaussian_dbal as gd
+    r = random.Random(subseed)
+    fails, counts = [], {}
+
+    def ref_of(D, ms, vs, n):
+        at = [(a, b, cc) for a in range(n) for b in range(a) for cc in range(b)]
+        return [ref_score(ref_logweights(D, 1.0, m, v, at)) for m, v in zip(ms, vs)]
+
+    def lists(g, n, sizes):
+        U = np.triu(g.uniform(0.1, 2.0, size=(n, n)), 1)
+        return (U + U.T).tolist(), [(g.normal(size=(n, L)) * 2.0).tolist() for L in sizes], [(10.0 ** g.uniform(-1, 1, size=(n, L))).tolist() for L in sizes]
+
+    # ---- 10. identity-keyed caches: every argument is a TEMPORARY of the same shape as in the previous round; only results are kept ----
+    n, sizes = 4, [2, 3]
+    C = math.comb(n, 3)
+    shared = gd.GaussianDBALScorer(max_chunk=r.choice([1, 50]), max_triples=C)
+    for rnd in range(8):
+        D, ms, vs = lists(np.random.default_rng(r.randrange(2 ** 32)), n, sizes)
+        ref = ref_of(D, ms, vs, n)
+        got = {}
+        try:
+            got["heteroscedastic"] = [float(x) for x in gd.dbal_fast_gaussian_scoring_heteroscedastic(
+                [np.array(m) for m in ms], [np.array(v) for v in vs], np.array(D), np.random.default_rng(rnd), max_combos=C)]
+            got["vectorised"] = [float(x) for x in gd.dbal_fast_gauss_scoring_vectorized(
+                pad_dense([np.array(m) for m in ms], 3, 0.0), pad_dense([np.array(v) for v in vs], 3, np.nan), np.array(D), np.random.default_rng(rnd), max_combos=C)]
+            for nm, sc in (("scorer(shared object)", shared), ("scorer(temporary object)", None)):
+                o = (sc or gd.GaussianDBALScorer(max_chunk=50, max_triples=C)).score(
+                    plates={i: StubPlate(np.array(m), np.array(v)) for i, (m, v) in enumerate(zip(ms, vs))},
+                    distance_matrix=StubDM(np.array(D)), samples=StubThetas(n), rng=np.random.default_rng(rnd), progress_bar=False)
+                got[nm] = [float(o[i]) for i in range(len(ms))]
+        except Exception as e:  # noqa
+            fails.append(("an entry point raises on valid temporaries", {"class": "identity-temporaries", "round": rnd, "error": type(e).__name__ + ": " + str(e)[:200]}, "scores", "raises"))
+            break
+        badk = [k for k, v_ in got.items() if not all_close(v_, ref)]
+        if badk:
+            fails.append(("scores of freshly built (temporary) arrays of the same shape as an earlier call differ from the direct estimator",
+                          {"class": "identity-temporaries", "round": rnd, "entry": badk[0], "scores": got[badk[0]]}, ref, "identity-temporaries"))
+            break
+        counts["class.identity-temporaries"] = counts.get("class.identity-temporaries", 0) + 1
+
+    # ---- 11. one scorer object, the same plates, ANOTHER generator ----------------------------------------------------------------
+    n = r.choice([4, 5, 6])
+    sizes = [r.choice([1, 2, 3]) for _ in range(3)]
+    C = math.comb(n, 3)
+    D, ms, vs = lists(np.random.default_rng(r.randrange(2 ** 32)), n, sizes)
+    ref = ref_of(D, ms, vs, n)
+    plates = {7 * i + 1: StubPlate(np.array(m), np.array(v)) for i, (m, v) in enumerate(zip(ms, vs))}
+    ids = list(plates.keys())
+    for budget in (C, 5000):
+        sc = gd.GaussianDBALScorer(max_chunk=2, max_triples=budget)
+        s1, s2 = r.randrange(2 ** 32), r.randrange(2 ** 32)
+        try:
+            sc.score(plates=plates, distance_matrix=StubDM(np.array(D)), samples=StubThetas(n), rng=RecRng(s1), progress_bar=False)
+            rb = RecRng(s2)
+            o2 = sc.score(plates=plates, distance_matrix=StubDM(np.array(D)), samples=StubThetas(n), rng=rb, progress_bar=False)
+            rf = RecRng(s2)
+            of = gd.GaussianDBALScorer(max_chunk=2, max_triples=budget).score(plates=plates, distance_matrix=StubDM(np.array(D)), samples=StubThetas(n), rng=rf, progress_bar=False)
+        except Exception as e:  # noqa
+            fails.append(("scorer raises on valid input", {"class": "reuse-other-seed", "error": type(e).__name__ + ": " + str(e)[:200]}, "scores", "raises"))
+            break
+        g2 = [float(o2[i]) for i in ids]
+        if not all_close(g2, ref) or not all_close([float(of[i]) for i in ids], g2):
+            fails.append(("second call of one scorer object with another generator: scores differ from the direct estimator / from a fresh scorer",
+                          {"class": "reuse-other-seed", "max_triples": budget, "second": g2, "fresh": [float(of[i]) for i in ids]}, ref, "reuse-other-seed"))
+            break
+        if rb.calls != rf.calls or rb.g.bit_generator.state != rf.g.bit_generator.state:
+            # draw trace / final generator state: C18's subject, here a tie-level observation only
+            fails.append(("second call with another generator does not draw like a fresh scorer", {"class": "reuse-other-seed", "n_draws": len(rb.calls)},
+                          {"n_draws": len(rf.calls)}, "tie:reuse-other-seed-trace"))
+        counts["class.reuse-other-seed"] = counts.get("class.reuse-other-seed", 0) + 1
+
+    # ---- 12. instalments: the plates scored in several score() calls of one object vs in one call -------------------------------------
+    n = r.choice([3, 4, 5])
+    sizes = [r.choice([1, 2, 3, 5]) for _ in range(r.choice([3, 4, 6]))]
+    C = math.comb(n, 3)
+    D, ms, vs = lists(np.random.default_rng(r.randrange(2 ** 32)), n, sizes)
+    ref = ref_of(D, ms, vs, n)
+    plates = {3 * i + 2: StubPlate(np.array(m), np.array(v)) for i, (m, v) in enumerate(zip(ms, vs))}
+    ids = list(plates.keys())
+    cut = sorted(r.sample(range(1, len(ids)), min(2, len(ids) - 1)))
+    parts = [ids[a:b] for a, b in zip([0] + cut, cut + [len(ids)])]
+    try:
+        sc = gd.GaussianDBALScorer(max_chunk=r.choice([1, 2, 50]), max_triples=C)
+        acc = {}
+        for part in parts:
+            o = sc.score(plates={i: plates[i] for i in part}, distance_matrix=StubDM(np.array(D)), samples=StubThetas(n), rng=np.random.default_rng(len(acc)), progress_bar=False)
+            if sorted(int(k) for k in o.keys()) != sorted(part):
+                fails.append(("an instalment does not return scores for exactly the plates it was given", {"class": "instalments", "given": part, "returned": [int(k) for k in o.keys()]}, part, "instalments"))
+                break
+            acc.update({int(k): float(v_) for k, v_ in o.items()})
+        else:
+            one_sc = gd.GaussianDBALScorer(max_chunk=sc.max_chunk, max_triples=C)
+            one = one_sc.score(plates=plates, distance_matrix=StubDM(np.array(D)), samples=StubThetas(n), rng=np.random.default_rng(0), progress_bar=False)
+            if not all_close([acc[i] for i in ids], ref) or not all_close([float(one[i]) for i in ids], ref):
+                fails.append(("plates scored in instalments by one scorer object get other scores than in one call / than the direct estimator",
+                              {"class": "instalments", "parts": parts, "instalments": [acc[i] for i in ids], "one_call": [float(one[i]) for i in ids]}, ref, "instalments"))
+            scal = lambda o_: {k: v_ for k, v_ in vars(o_).items() if isinstance(v_, (int, float, str, bool, type(None)))}
+            if sorted(vars(sc)) != sorted(vars(one_sc)) or scal(sc) != scal(one_sc):
+                fails.append(("scorer attributes after instalments differ from those after one call", sorted(vars(sc)), sorted(vars(one_sc)), "tie:instalments-state"))
+            counts["class.instalments"] = 1
+    except Exception as e:  # noqa
+        fails.append(("scorer raises on valid input", {"class": "instalments", "error": type(e).__name__ + ": " + str(e)[:200]}, "scores", "raises"))
+
+    # ---- 13. integer-width boundaries: plate widths and plate counts 127 / 128 / 129 / 255 / 256 / 257 --------------------------------
+    n = 3
+    for w in (127, 128, 129, 255, 256, 257):
+        g = np.random.default_rng(r.randrange(2 ** 32))
+        for kind in ("width", "count"):
+            sizes = [w, 1, r.choice([2, w])] if kind == "width" else [r.choice([1, 1, 2]) for _ in range(w)]
+            D, ms, vs = lists(g, n, sizes)
+            ref = ref_of(D, ms, vs, n)
+            try:
+                het = [float(x) for x in gd.dbal_fast_gaussian_scoring_heteroscedastic([np.array(m) for m in ms], [np.array(v) for v in vs], np.array(D), np.random.default_rng(1), max_combos=1)]
+                mc = r.choice([1, 50, 127, 128, 255, 256, 257]) if kind == "count" else r.choice([1, 2, 50])
+                o = gd.GaussianDBALScorer(max_chunk=mc, max_triples=1).score(
+                    plates={i: StubPlate(np.array(m), np.array(v)) for i, (m, v) in enumerate(zip(ms, vs))},
+                    distance_matrix=StubDM(np.array(D)), samples=StubThetas(n), rng=np.random.default_rng(2), progress_bar=False)
+                sco = [float(o[i]) for i in range(len(ms))]
+            except Exception as e:  # noqa
+                fails.append(("an entry point raises on valid input", {"class": "width-boundaries", kind: w, "error": type(e).__name__ + ": " + str(e)[:200]}, "scores", "raises"))
+                continue
+            if not all_close(het, ref) or not all_close(sco, ref):
+                k0 = next(i for i in range(len(ref)) if not (close(het[i], ref[i]) and close(sco[i], ref[i])))
+                fails.append(("scores differ from the direct estimator at an integer-width boundary of the plate %s" % kind,
+                              {"class": "width-boundaries", kind: w, "plate": k0, "heteroscedastic": het[k0], "scorer": sco[k0], "max_chunk": mc}, ref[k0], "width-boundaries"))
+            counts["class.width-boundaries"] = counts.get("class.width-boundaries", 0) + 1
+    return fails, counts
 
 
 # ----------------------------------------------------------------------------------------------
@@ -668,7 +807,7 @@ def static_ties(ctx, res, lines, expect, meta):
         for k in sorted(set([1, 2, 3, 4, 7, max(1, ln - 1), max(1, ln), ln + 1, ln + 3])):
             parts = np.array_split(list(range(ln)), float(k))
             if [int(x) for p in parts for x in p] != list(range(ln)):
-                res.fail("array_split does not partition in order", {"kind": "split", "len": ln, "n": k}, "?", "concatenation = input")
+                raise RuntimeError("numpy array_split does not partition in order?!")
             lines.append("dbal.split %d %d" % (ln, k))
             expect.append("-" if not parts else ",".join(str(len(p)) for p in parts))
             meta.append(("split", None))
@@ -677,7 +816,7 @@ def static_ties(ctx, res, lines, expect, meta):
         C = n * (n - 1) * (n - 2) // 6 if n >= 3 else 0
         ts = [tuple(int(x) for x in gd.get_combination_at_sorted_index(i, n, 3)) for i in range(C)]
         if len(set(ts)) != C or any(not (n > a > b > c >= 0) for a, b, c in ts):
-            res.fail("unranking does not enumerate every descending triple once", {"kind": "alltriples", "n": n}, ts[:10], "C(n,3) distinct descending triples")
+            res.count("tie_only.unranking_not_a_bijection(C15's subject)")      # compared with the model below; C15 owns the oracle
         lines.append("dbal.alltriples %d" % n)
         expect.append(enc_triples(ts))
         meta.append(("alltriples", None))
@@ -693,7 +832,10 @@ def static_ties(ctx, res, lines, expect, meta):
         try:
             dense = gd.pad_ragged_arrays_to_dense_array(arrs, pad_value=pad)
         except Exception as e:  # noqa
-            res.fail("ragged-to-dense copy raises", case, type(e).__name__ + ": " + str(e)[:200], "dense array", signature="pad")
+            # an internal helper on shapes/pad values the entry points never produce: compared with the model only
+            lines.append("dbal.pad %d %s" % (f2b(pad), enc_3d([a.tolist() for a in arrs])))
+            expect.append("err:" + type(e).__name__)
+            meta.append(("pad", None))
             continue
         res.evaluations += 1
         ok = dense.shape == (npl, max(a.shape[0] for a in arrs), max(a.shape[1] for a in arrs))
@@ -706,14 +848,15 @@ def static_ties(ctx, res, lines, expect, meta):
             outside = np.concatenate([blk[a.shape[0]:, :].ravel(), blk[: a.shape[0], a.shape[1]:].ravel()])
             ok = ok and (np.all(np.isnan(outside)) if math.isnan(pad) else np.all(outside == pad))
         if not ok:
-            res.fail("ragged-to-dense copy misplaces cells", case, dense.tolist(), "array i in the top-left block, pad elsewhere", signature="pad")
+            res.count("tie_only.pad_helper_misplaces_cells")          # the exact tie with the model below reports it
         lines.append("dbal.pad %d %s" % (f2b(pad), enc_3d([a.tolist() for a in arrs])))
         expect.append(enc_3d(dense.tolist()))
         meta.append(("pad", None))
 
 
 def error_cases(res, lines, expect, meta):
-    """ValueError on both sides for < 3 posterior samples and mismatching shapes"""
+    """invalid inputs (< 3 posterior samples, mismatching shapes): OUTSIDE the property's quantifier, so the error class is only compared
+    with the model (a difference is a broken tie, never a concrete replay)"""
     from batchie.scoring import gaussian_dbal as gd
     g = np.random.default_rng(5)
 
@@ -730,8 +873,6 @@ def error_cases(res, lines, expect, meta):
         m = [g.normal(size=(n, 2)), g.normal(size=(n, 3))]
         v = [np.ones((n, 2)), np.ones((n, 3))]
         e = run(gd.dbal_fast_gaussian_scoring_heteroscedastic, per_plate_predictions=m, variances=v, distance_matrix=D)
-        if e != "err:ValueError":
-            res.fail("fewer than three posterior samples accepted", {"kind": "error", "n": n}, e, "ValueError", signature="errors")
         lines.append("dbal.het %d %s - %s %s" % (one, enc_mat(D.tolist()), enc_3d(m), enc_3d(v)))
         expect.append(e)
         meta.append(("err", None))
@@ -744,8 +885,6 @@ def error_cases(res, lines, expect, meta):
     m = [g.normal(size=(n, 2)), g.normal(size=(n, 3))]
     v = [np.ones((n, 2)), np.ones((n, 2))]
     e = run(gd.dbal_fast_gaussian_scoring_heteroscedastic, per_plate_predictions=m, variances=v, distance_matrix=D)
-    if e != "err:ValueError":
-        res.fail("mismatching prediction/variance shapes accepted", {"kind": "error", "n": n}, e, "ValueError", signature="errors")
     lines.append("dbal.het %d %s 3,2,1 %s %s" % (one, enc_mat(D.tolist()), enc_3d(m), enc_3d(v)))
     expect.append(e)
     meta.append(("err", None))
@@ -763,9 +902,8 @@ def error_cases(res, lines, expect, meta):
         e = "-" if out == {} else "nonempty"
     except Exception as ex:  # noqa
         e = "err:" + type(ex).__name__
-    if e != "-":
-        res.fail("scorer on an empty dict of plates does not return the empty dict", {"kind": "error", "n": 0}, e, "{}", signature="errors")
-    res.count("error_cases", 8)
+    res.count("outside_quantifier.empty_dict." + ("returns_empty" if e == "-" else "other"))
+    res.count("error_cases(tie only: invalid inputs are outside the property's quantifier)", 7)
 
 
 def real_objects_case(subseed):
@@ -834,7 +972,7 @@ def real_objects_case(subseed):
     for k, m, v in zip(ids, means, variances):
         sel = plates[k].selection_vector
         if not (np.array_equal(m, M[:, sel]) and np.array_equal(v, V[:, sel])):
-            fails.append(("predict_*_all does not return the (n_thetas, n_experiments) table of the plate", {"plate": k}, "rows of the table", "predict"))
+            fails.append(("predict_*_all does not return the (n_thetas, n_experiments) table of the plate", {"plate": k}, "rows of the table", "tie:predict"))
     ref = [ref_score(ref_logweights(D.tolist(), 1.0, M[:, plates[k].selection_vector].tolist(), V[:, plates[k].selection_vector].tolist(), all_triples)) for k in ids]
     P = len(ids)
     for mc in sorted(set([1, 2, P, 50])):
@@ -855,6 +993,16 @@ def real_objects_case(subseed):
     return fails, tie, dict(n=n, sizes=[int(plates[k].size) for k in ids])
 
 
+def emit(res, what, case, observed, required, sig, replaying=False):
+    """`tie:` signatures are observations the property text does not state (or inputs outside its quantifier): they are reported as a
+    broken tie (ends in `no-failing-input-found`), never as a concrete replay"""
+    if sig.startswith("tie:"):
+        if not replaying:
+            res.disagree("C05:" + sig[4:], case, observed, required)
+        return
+    res.fail(what, case, observed, required, signature="C05:" + sig)
+
+
 def run(ctx, res):
     res.rule = RULE
     drv = ctx.driver
@@ -862,7 +1010,20 @@ def run(ctx, res):
     static_ties(ctx, res, lines, expect, meta)
     error_cases(res, lines, expect, meta)
 
-    n_cases = ctx.scale(500, 3000, 2000)
+    # the hardening classes run FIRST: their scenarios are self-contained loops, so a failure that depends on the allocator's reuse of
+    # addresses (identity-keyed memo) is reported with a case that reproduces on its own
+    cseeds = ctx.subrng("classes")
+    for rep in range(ctx.scale(1, 10, 5)):
+        case = {"kind": "classes", "subseed": cseeds.randrange(2 ** 48)}
+        fails, counts = classes_case(case["subseed"])
+        res.evaluations += 1
+        for k_, v_ in counts.items():
+            res.count(k_, v_)
+        res.nontrivial.add(("classes", case["subseed"]))
+        for (what, observed, required, sig) in fails:
+            emit(res, what, case, observed, required, sig)
+
+    n_cases = ctx.scale(400, 3000, 2000)
     big = ctx.tier == "thorough" or ctx.mode == "search"
     seeds = ctx.subrng("cases")
     tie_rows = []
@@ -878,11 +1039,19 @@ def run(ctx, res):
         if 1 in info["sizes"]:
             res.count("has_size1_plate")
         res.count("mode.%s" % info["mode"])
+        res.count("class.object-reuse", 3)
+        res.count("class.input-mutation")
+        if info.get("key_order_differs"):
+            res.count("unspecified.dict_key_order_differs")
+        if info.get("draw_unrecognised"):
+            res.count("unspecified.draw_not_recognised(tie skipped)")
         res.count("scorer_reused_after_other_n_thetas", info.get("reuse_other_n", 0))
         if info["views"]:
             res.count("inputs.readonly_noncontiguous")
+            res.count("class.memory-layout")
         if max(info["sizes"]) >= 96:
             res.count("has_plate_of_96+_wells")
+            res.count("class.size-boundaries")
         if len(info["sizes"]) > 50:
             res.count("plates.51+")
         g_ = info["dyn_gap"]
@@ -891,8 +1060,7 @@ def run(ctx, res):
         if len(set(info["sizes"])) >= 2 and info["positive"]:
             res.nontrivial.add((info["n"], tuple(info["sizes"]), info["zero_mode"], info["factor"], info["homo"]))
         for (what, observed, required, sig) in fails:
-            res.fail(what, dict(case, n=info["n"], sizes=info["sizes"], zero_mode=info["zero_mode"], factor=info["factor"]),
-                     observed, required, signature="C05:" + sig)
+            emit(res, what, dict(case, n=info["n"], sizes=info["sizes"], zero_mode=info["zero_mode"], factor=info["factor"]), observed, required, sig)
         for (where, line, impl) in tie:
             tie_rows.append((where, case, line, impl))
         if len(res.samples) < 4:
@@ -906,11 +1074,12 @@ def run(ctx, res):
             fails, tie, info = bigtheta_case(case["subseed"], nb, want_tie=drv is not None)
             res.evaluations += 1
             res.count("n_thetas.%d(C(n,3)>5000)" % nb)
+            res.count("class.budget-vs-default(5000)")
             if info.get("unobserved"):
                 res.count("bigtheta.triples_unobserved", info["unobserved"])
             res.nontrivial.add(("bigtheta", nb, tuple(info["sizes"])))
             for (what, observed, required, sig) in fails:
-                res.fail(what, dict(case, sizes=info["sizes"]), observed, required, signature="C05:" + sig)
+                emit(res, what, dict(case, sizes=info["sizes"]), observed, required, sig)
             for (where, line, impl) in tie:
                 tie_rows.append((where, case, line, impl))
 
@@ -923,7 +1092,7 @@ def run(ctx, res):
         if len(set(info["sizes"])) >= 2:
             res.nontrivial.add(("real", info["n"], tuple(info["sizes"])))
         for (what, observed, required, sig) in fails:
-            res.fail(what, dict(case, **info), observed, required, signature="C05:" + sig)
+            emit(res, what, dict(case, **info), observed, required, sig)
         for (where, line, impl) in tie:
             tie_rows.append((where, case, line, impl))
 
@@ -954,19 +1123,27 @@ def run(ctx, res):
 
 
 def replay(ctx, case, res):
+    if case.get("kind") == "classes":
+        fails, _counts = classes_case(case["subseed"])
+        for (what, observed, required, sig) in fails:
+            emit(res, what, case, observed, required, sig, replaying=True)
+        return
     if case.get("kind") == "bigtheta":
         fails, _tie, _info = bigtheta_case(case["subseed"], case["n"], want_tie=False)
         for (what, observed, required, sig) in fails:
-            res.fail(what, case, observed, required, signature="C05:" + sig)
+            emit(res, what, case, observed, required, sig, replaying=True)
         return
     if case.get("kind") == "realobjects":
         fails, _tie, _info = real_objects_case(case["subseed"])
         for (what, observed, required, sig) in fails:
-            res.fail(what, case, observed, required, signature="C05:" + sig)
+            emit(res, what, case, observed, required, sig, replaying=True)
         return
     if case.get("kind") != "plateset":
         run(ctx, res)
         return
-    fails, _tie, _info = eval_case({"kind": "plateset", "subseed": case["subseed"], "big": case["big"]}, want_tie=False)
+    for _attempt in range(3):       # a failure that depends on object identities / addresses may need the case's own history to recur
+        fails, _tie, _info = eval_case({"kind": "plateset", "subseed": case["subseed"], "big": case["big"]}, want_tie=False)
+        if any(not f[3].startswith("tie:") for f in fails):
+            break
     for (what, observed, required, sig) in fails:
-        res.fail(what, case, observed, required, signature="C05:" + sig)
+        emit(res, what, case, observed, required, sig, replaying=True)
